@@ -21,6 +21,7 @@ func init() {
 		Level: "exploration",
 		Rule: "generated sessions: pool of 2-5 servers whose URLs are drawn from a generator (userinfo, port, IPv6 host, query incl. ';' and '|', escaped path %2F, spaces, UTF-8, characters legal in URLs but special in cookies), codec from {raw, hash(salt), AES 16/24/32 with and without TTL, fallback chains of depth 1-2}, balancer or rebalancer; " +
 			"mint by a real first request (Set-Cookie parsed with net/http), replay with the cookie after perturbations (rotation moved, re-weights, unrelated adds/removes) and require the same server; then one full rotation of requests with invalid cookies (absent, truncated, bit-flipped, re-encoded, other key/salt/codec, expired on the frozen clock, server removed) which must be served, stay inside the pool, follow the exact weighted counts and receive a fresh cookie that itself round-trips; " +
+			"AES TTLs up to the largest duration; servers added to the wrapped balancer directly; a registration that fails in the rebalancer (meter factory error) must leave no routable ghost; the handler behind the balancer edits req.URL in place; " +
 			"non-trivial = session with >=1 pinned replay after a perturbation and >=1 invalid-cookie request; distinct by (codec, pool URLs, script)",
 		Assumptions: []string{"frozen library clock (hook) for TTL expiry", "a raw-codec cookie that parses to a current member is valid by definition; such mangled values are not used as negatives"},
 		Parts: []Part{
